@@ -150,6 +150,12 @@ def pre_formulas(tier: str):
               # a numeral as the FIRST operand of a comparison / of an arithmetic node
               "(and (<= 1 (g ?x)))", "(and (> 2 (f)) (p ?x))", "(and (or (r) (< 0.5 (+ (g ?x) (f)))))", "(and (>= 1 (g ?y)))",
               "(and (< 1 (* 2 (g ?x))))", "(and (>= (- 2 (g ?x)) (f)))", "(and (= ?x ?y) (<= 0 (- 1 (g ?y))))",
+              # one atom with both signs in one group; groups made of (in)equalities only; an (in)equality with the constant second
+              "(and (or (p ?x) (not (p ?x))) (r))", "(and (q ?x ?y) (or (not (q ?x ?y)) (r)))",
+              "(and (p ?x) (or (= ?x ?y) (= ?y c)))", "(and (or (r) (and (not (= ?x ?y)) (not (= ?x c)))))",
+              "(and (not (= ?x c)) (p ?y))", "(and (or (= ?y c) (p ?x)))",
+              # (in)equalities that mention the quantified variable
+              "(and (forall (?z - t1) (or (= ?z ?x) (p ?z))))", "(and (forall (?z - t1) (or (not (= ?z c)) (m ?z))))",
               # a quantified variable that shadows a parameter, next to a quantifier whose body mentions that parameter
               "(and (forall (?y - t1) (or (p ?y) (m ?y))) (forall (?z - t1) (or (q ?y ?z) (m ?z))))",
               "(and (forall (?z - t1) (or (q ?z ?x) (m ?z))) (forall (?x - t2) (and (p ?x))))"):
@@ -317,6 +323,12 @@ EXTRA_EFF = [  # constant before a variable; constants inside function terms; sa
     # one effect group reads what another group writes (all right-hand sides are read in the state before the action)
     "(and (assign (g ?x) (g ?y)) (when (r) (assign (g ?y) (g ?x))))",
     "(and (increase (f) 1) (when (p ?x) (assign (g ?x) (f))) (when (not (p ?x)) (decrease (g ?y) (f))))",
+    # quantified effects range over the domain's constants as well
+    "(and (m c) (forall (?z - t1) (when (not (p ?z)) (p ?z))))", "(and (not (p c)) (forall (?z - object) (when (m ?z) (not (m ?z)))))",
+    # an unconditional numeric effect next to a quantified effect; two when-effects that make the same change
+    "(and (increase (f) 1) (forall (?z - t1) (when (p ?z) (not (p ?z)))))",
+    "(and (assign (g ?x) 2) (forall (?z - t2) (when (not (p ?z)) (p ?z))) (r))",
+    "(and (when (r) (p ?x)) (when (q ?x ?y) (p ?x)))", "(and (when (p ?y) (increase (f) 1)) (when (not (r)) (increase (f) 1)))",
     # delete and add of one atom in one group (delete, then add)
     "(and (not (q ?x ?y)) (q ?x ?y))", "(and (p ?x) (not (p ?x)) (r))",
 ]
